@@ -321,7 +321,7 @@ func init() {
 					s.A = 2
 					return []pathsim.State{s}
 				case fn != nil && writers[fn.Origin()] && s.A == 1:
-					c.Violate(ev.Pos, "[resume-point-overwritten] "+prog.ShortFuncName(fn)+" advances the tracker's last-assigned id between LoadSplits and the first shard listing: the listing starts below the checkpointed resume point and shards finished before the checkpoint are listed and assigned again")
+					c.Violate(ev.Pos, "[resume-point-overwritten] %s advances the tracker's last-assigned id between LoadSplits and the first shard listing: the listing starts below the checkpointed resume point and shards finished before the checkpoint are listed and assigned again", prog.ShortFuncName(fn))
 				}
 				return nil
 			}})
